@@ -34,10 +34,27 @@ class Markup:
         return 'Markup(%r)' % self.s
 
 
+class SafeStr(str):
+    """a 'safe string' in the style of markupsafe.Markup: a str subclass offering __html__ whose + and % escape the OTHER
+    operand - whatever the engine concatenates it with must not go through these operators"""
+
+    def __html__(self):
+        return self
+
+    def __add__(self, other):
+        return SafeStr(str.__add__(self, escape_text(str(other))))
+
+    def __radd__(self, other):
+        return SafeStr(str.__add__(escape_text(str(other)), self))
+
+    def __mod__(self, other):
+        return SafeStr(str.__mod__(self, escape_text(str(other))))
+
+
 def make_env():
     return dict(v='VAL<&>', n=7, d={'k': 'KV', 'b': '}', 'q': '"\''}, s='a"b', lst=[1, 2, 3],
                 t="it's", e='', z=0, fl=2.5, by=b'by<', nn=None, o=Obj(), h=Markup(),
-                uni='é日', dd={'x': {'y': 'deep}'}})
+                uni='é日', dd={'x': {'y': 'deep}'}}, ss=SafeStr('<safe&>'))
 
 
 STR_BODIES = ['}', '{', '${', '$', '{}', '}}', '}${', 'a}b', '$$', ' ', 'x', '{0}', '${v}', '&', '<', '>',
